@@ -52,20 +52,21 @@ theorem block_p2w {st : Static} {G : Block} (E : StaticOK st G) {ks : AMap.T Wid
     rw [hv', ← tipMeta_take hN.good hb]
 
 /-- **a handler step inside a removal window, removal in progress**: the next queued notification is a block of the
-    node's chain and its database transaction succeeds -/
+    node's chain; if its database transaction succeeds the relaxed state holds for the node's chain up to that block; if
+    it FAILS nothing changes (one Update) — which keeps the state as long as another notification is still queued, so
+    success is asked of the LAST queued notification only -/
 theorem JRmidW_handle {cfg : Cfg} {G : Block} (E : StaticOK cfg.st G) (cr : Bool) {x : SysQ} {k : Skel} {w : Wid}
     (hJ : JRmidW cfg G x k w)
     (hon : ∀ b, x.queue.head? = some b → k.chain[b.height]? = some b)
-    (hok : ∀ b, x.queue.head? = some b → ((opBlock (envAt cfg.st k.chain) cfg.n b).run none x.P x.V).ok = true) :
+    (hok : ∀ b, x.queue = [b] → ((opBlock (envAt cfg.st k.chain) cfg.n b).run none x.P x.V).ok = true) :
     JRmidW cfg G (stepQ cfg.st cfg.n cr x .handle) k w := by
   cases hq : x.queue with
   | nil =>
     have h1 : stepQ cfg.st cfg.n cr x .handle = x := by simp only [stepQ, hq]
     rw [h1]; exact hJ
   | cons b q =>
-    obtain ⟨hc, hks, hkeys, hnW, hnA, ⟨r, hr, hrne⟩, htask, ⟨X, g, kk, hX, hP, hv, _, _⟩, hqk, hql, hN, hcur, hoth, hother⟩ := hJ
+    obtain ⟨hc, hks, hkeys, hnW, hnA, ⟨r, hr, hrne⟩, htask, ⟨X, g, kk, hX, hP, hv, hpreX, _⟩, hqk, hql, hN, hcur, hoth, hother⟩ := hJ
     have hb : k.chain[b.height]? = some b := hon b (by rw [hq]; rfl)
-    have hokb := hok b (by rw [hq]; rfl)
     have h1 : stepQ cfg.st cfg.n cr x .handle =
         { x with queue := q, P := ((opBlock (envAt cfg.st k.chain) cfg.n b).run none x.P x.V).P,
                  V := ((opBlock (envAt cfg.st k.chain) cfg.n b).run none x.P x.V).V } := by
@@ -82,6 +83,31 @@ theorem JRmidW_handle {cfg : Cfg} {G : Block} (E : StaticOK cfg.st G) (cr : Bool
     have hqk' : ∀ y ∈ q, AMap.get cfg.st.known y.id = some y :=
       fun y hy => hqk y (by rw [hq]; exact List.mem_cons_of_mem _ hy)
     have hS := static_of (cfg := cfg) hX hnA hnW hr hrne k.chain
+    cases hokb : ((opBlock (envAt cfg.st k.chain) cfg.n b).run none x.P x.V).ok with
+    | false =>
+      -- the transaction failed: store and volatile state are what they were; another notification is still queued
+      have hqne : q ≠ [] := by
+        intro hqe
+        have := hok b (by rw [hq, hqe])
+        rw [hokb] at this; cases this
+      have hcx : ctxOf (envAt cfg.st k.chain) x.V = (lenv cfg.st k.ks).ctx k.chain := by rw [ctx_eq, hkeys]
+      obtain ⟨e1, e2, e3⟩ := opBlock_processBlock (envAt cfg.st k.chain) cfg.n b x.P x.V
+      rw [hcx] at e1 e2 e3
+      rw [hokb] at e3
+      have hpb : processBlock ((lenv cfg.st k.ks).ctx k.chain) x.P.led x.V.led b = (x.P.led, x.V.led, false) := by
+        cases hpm : processM ((lenv cfg.st k.ks).ctx k.chain) x.P.led x.V.led b with
+        | error e => exact processBlock_of_error hpm
+        | ok r =>
+          obtain ⟨s', rolled, added⟩ := r
+          obtain ⟨v', hpb', _⟩ := processBlock_of_ok hpm
+          rw [hpb'] at e3; cases e3
+      rw [hpb] at e1 e2
+      have eP : ((opBlock (envAt cfg.st k.chain) cfg.n b).run none x.P x.V).P = x.P := e1
+      have eV : ((opBlock (envAt cfg.st k.chain) cfg.n b).run none x.P x.V).V = x.V := e2
+      rw [eP, eV]
+      exact ⟨hc, hks, hkeys, hnW, hnA, ⟨r, hr, hrne⟩, htask, ⟨X, g, kk, hX, hP, hv, hpreX, fun h => absurd h hqne⟩,
+        hqk', hql', hN, hcur, hoth, hother⟩
+    | true =>
     obtain ⟨b3, b4, b5, ⟨g', k', b6⟩, b7, b8⟩ := block_p2w E hN hX cfg.n hkeys hS hP hv hb hokb
     refine ⟨hc, b3.trans hks, b4.trans hkeys, hnW, hnA, ⟨r, hr, hrne⟩, ?_,
       ⟨k.chain.take (b.height + 1), g', k', hN.take _, b6, b7, ⟨k.chain, hcur, List.take_prefix _ _⟩, ?_⟩,
